@@ -173,8 +173,16 @@ def install(nmfu):
                 REC.fail("OptionalNode.convert/C09", "optional whose body can match the empty string was accepted")
             else:
                 REC.ok("OptionalNode.convert")
-            if r.starting_state not in r.accepting_states and self.next is None:
-                REC.fail("OptionalNode.convert/C01-skippable", "optional at the end of a sequence: start state is not accepting, the body cannot be skipped")
+            if self.next is None:
+                # skipping = leaving without consuming: the start state is accepting, or every byte that does not start the contents
+                # falls through (non error) to an accepting state; in the second form the trailing actions must sit on that fall-through
+                st = r.starting_state
+                els = st[nmfu.DFTransition.Else] if not isinstance(st, nmfu.DFConditionPoint) else None
+                via_else = els is not None and els.is_fallthrough and not els.error_handling and els.target in r.accepting_states
+                if st not in r.accepting_states and not via_else:
+                    REC.fail("OptionalNode.convert/C01-skippable", "optional at the end of a sequence: the body cannot be skipped (start state neither accepting nor falling through to an accepting state)")
+                elif self.finish_actions and not (via_else and [a for a in els.actions] == list(self.finish_actions)):
+                    REC.fail("OptionalNode.convert/C01-skip-keeps-actions", "actions following an optional at the end of a block are not performed when the contents are skipped")
             return r
         return convert
     wrap(nmfu.OptionalNode, "convert", mk_optional)
